@@ -105,7 +105,25 @@ def rec_files(d, host, script, files, tag, nproc=12):
 def host_float_checks(extra, recs):
     """design rule 9: text floats are related to the logged IEEE bytes by the host's float(); returns failures"""
     bad = []
+
+    def num(t):
+        txt = bytes(bytearray(t["b"])).decode("ascii") if t["k"] in ("floatt", "complext") else None
+        if t["k"] == "floatt":
+            return ("f", struct.pack("<d", float(txt)))
+        if t["k"] == "complext":
+            a, b = txt.split(" ")
+            return ("c", struct.pack("<dd", float(a), float(b)))
+        return ("f" if t["k"] == "float" else "c", bytes(bytearray(t["b"])))
     for x in extra:
+        if x.get("tag") == "F2":
+            try:
+                a = sorted(num(t) for t in x["texts"])
+                b = sorted(num(t) for t in x["floats"])
+            except Exception:
+                continue
+            if a != b:
+                bad.append({"index": x["index"], "clause": "elements", "want": "same float values", "got": "differ", "pos": -1, "k": -1, "tid": x["tid"]})
+            continue
         if x.get("tag") != "F":
             continue
         try:
@@ -125,7 +143,9 @@ def host_float_checks(extra, recs):
 def judge(recs, name, pid):
     ok = [r for r in recs if "loaderror" not in r and "error" not in r]
     err = [r for r in recs if "loaderror" in r or "error" in r]
-    rej, stats = lib.judge("MarshalTrace", "MarshalTrace", ok, name=name + "-" + pid, timeout=3000)
+    slim = [{"id": r["id"], "magic": r["magic"], "ver": r["ver"], "buf": r["buf"], "tok": r["tok"], "consumed": r["consumed"],
+             "strict": r["strict"]} for r in ok]
+    rej, stats = lib.judge("MarshalTrace", "MarshalTrace", slim, name=name + "-" + pid, timeout=3000)
     rej += host_float_checks(stats.get("extra", []), ok)
     return ok, err, rej, stats
 
